@@ -16,6 +16,7 @@ import (
 	"example.com/scion-time/net/scion"
 
 	"verif.local/sim/simnet"
+	"verif.local/sim/simsync"
 )
 
 // tssCapV replaces the uses of the constant tssCap (see simbuild) so that the
@@ -135,3 +136,7 @@ func VerifTSSMuHeld() bool {
 	}
 	return true
 }
+
+// VerifTSSMuReset replaces the store mutex by a fresh one (between runs: a run that
+// was torn down while a goroutine of a modified tree held it must not poison the next).
+func VerifTSSMuReset() { tssMu = simsync.Mutex{} }
